@@ -420,30 +420,6 @@ class VAMMessage(CooperativeAwarenessMessage):
                 parser.parse(tpv["time"]).timestamp())
             self.vam["vam"]["generationDeltaTime"] = int(gen_delta_time.msec)
 
-    def create_position_confidence(self, epx: int, epy: int) -> dict:
-        """
-        Translates the epx and epy TPV values to the position confidence ellipse value.
-
-        Parameters
-        ----------
-        epx : int
-            TPV epx value.
-        epy : int
-            TPV epy value.
-
-        Returns
-        -------
-        dict
-            Position confidence ellipse value.
-        """
-        position_confidence_ellipse = {
-            "semiMajorAxisLength": int(epx * 100),
-            "semiMinorAxisLength": int(epy * 100),
-            "semiMajorAxisOrientation": 0,
-        }
-
-        return position_confidence_ellipse
-
     def fullfill_basic_container_with_tpv_data(self, tpv: dict) -> None:
         """
         Fullfills the basic container with the GPSD TPV data.
